@@ -2,7 +2,10 @@ module verif/harness
 
 go 1.23.0
 
-require github.com/a-h/templ v0.0.0
+require (
+	github.com/a-h/templ v0.0.0
+	golang.org/x/net v0.37.0
+)
 
 require (
 	github.com/a-h/parse v0.0.0-20250122154542-74294addb73e // indirect
